@@ -61,7 +61,7 @@ func (c *char) applyShock(targets []key.TargetID) {
 			Source:   c.id,
 			Chance:   shockChance,
 			Duration: shockDur,
-			State: common.ShockState{
+			State: &common.ShockState{
 				DamagePercentage: ultDotValue[c.info.UltLevelIndex()] + e6AdditionalMultiplier,
 				DamageValue:      0,
 			},
